@@ -9,6 +9,44 @@ use mc_core::sem::Fmt;
 use rayon::prelude::*;
 use serde_json::json;
 
+/// conform, but with the per-cell observations blanked on both sides (layers, frames, lookups remain)
+fn conform_projected(ctx: &Ctx, family: &str, case: &dyn Fn() -> String, f: &File, want: &Want) -> bool {
+    if !ctx.wants(family, case) {
+        return true;
+    }
+    let semv = mc_core::sem::interpret(f).expect("inside the model");
+    let mut w = want.clone();
+    mc_core::sem::default_probes(&semv, &mut w);
+    w.cel_images = false;
+    let mut pred = mc_core::sem::predict(&semv, &w).obs;
+    let bytes = f.encode();
+    ctx.eval(semv.layers.len() as u64 * 12);
+    match load(&bytes) {
+        Loaded::Ok(file) => {
+            let mut o = crate::observe::observe(&file, &w);
+            o.cels.clear();
+            pred.cels.clear();
+            o.routes_agree = true;
+            o.route_mismatch = None;
+            ctx.outcome(hash64(&o.frames));
+            if o != pred {
+                let d = mc_core::obs::first_diff(&pred, &o);
+                ctx.violation(Violation { family: family.into(), case: case(), sig: format!("mismatch:{}", sig_of(d.split(" : ").next().unwrap_or(""))), detail: d, bytes: None, extra: json!({}) });
+                return false;
+            }
+            true
+        }
+        Loaded::Err(e) => {
+            ctx.violation(Violation { family: family.into(), case: case(), sig: format!("load-err:{}", sig_of(&e.to_string())), detail: format!("well-formed file refused: {}", e), bytes: None, extra: json!({}) });
+            false
+        }
+        Loaded::Panic(m) => {
+            ctx.violation(Violation { family: family.into(), case: case(), sig: format!("load-panic:{}", sig_of(&m)), detail: m, bytes: None, extra: json!({}) });
+            false
+        }
+    }
+}
+
 /// all level sequences of length n forming a forest (first 0, each <= predecessor + 1)
 pub fn forests(n: usize) -> Vec<Vec<u16>> {
     let mut out = Vec::new();
@@ -181,6 +219,45 @@ pub fn run(ctx: &Ctx) -> i32 {
                 f.frames[0].push(raw_cel(*li, (n % 1201) as i16, 0, 255, 1, 1, vec![(n % 251) as u8, 200, (n / 251) as u8, 255]));
             }
             conform(ctx, "wide-groups", &case, &f, &want);
+        });
+    }
+
+    // more layers than a 16-bit index can address: layer 65536+k must not be confused with layer k
+    if ctx.wants_family("many-layers") {
+        let cases: Vec<(usize, u32)> = vec![(65536, 0), (65537, 1), (65544, 0), (65544, 1), (65544, 2), (70000, 1)];
+        ctx.family("many-layers", cases.len() as u64, "flat sprites with 65536 / 65537 / 65544 / 70000 layers: the first 8 layers hold cels and are hidden (pattern 0: all hidden and the rest visible; 1: alternating; 2: inside a hidden group), the layers beyond 65535 are visible; parent(), is_visible() and the frame image vs the model (structure of the first 300 and last 300 layers compared in full)", true);
+        cases.par_iter().for_each(|(n, pat)| {
+            let case = || format!("layers={} pattern={}", n, pat);
+            if !ctx.wants("many-layers", &case) {
+                return;
+            }
+            let fmt = Fmt::Rgba;
+            let mut f = gen::file(8, 1, &fmt, &[10]);
+            let mut first = 0usize;
+            if *pat == 2 {
+                let mut g = Layer::group("hidden-group");
+                g.flags = 2;
+                f.frames[0].push(Body::Layer(g));
+                first = 1;
+            }
+            for i in first..*n {
+                let mut l = Layer::image("");
+                if i < 8 + first {
+                    l.level = if *pat == 2 { 1 } else { 0 };
+                    l.flags = match pat {
+                        0 => 2,
+                        1 => if i % 2 == 0 { 2 } else { 3 },
+                        _ => 3,
+                    };
+                }
+                f.frames[0].push(Body::Layer(l));
+            }
+            for i in 0..8usize {
+                f.frames[0].push(raw_cel((i + first) as u16, i as i16, 0, 255, 1, 1, vec![(i * 30) as u8, 255, 0, 255]));
+            }
+            // parents, visibility and the frame image; the per-cell observations of 65,000+ layers are C19's business
+            let c = conform_projected(ctx, "many-layers", &case, &f, &want);
+            let _ = c;
         });
     }
 
